@@ -655,6 +655,28 @@ pub fn analyse(
         }
     }
     let _ = last_event_t;
+    // S9: a user request is not left waiting through a stretch in which the connected channel has nothing to do ("executed ...
+    // ahead of periodic polls" presupposes that it is executed when nothing at all competes with it): a lost wake-up shows here
+    for u in &users {
+        let until = match (u.started, u.done) {
+            (Some(s), _) => s,
+            (None, Some(d)) => d,
+            (None, None) => run.end_ms,
+        };
+        if until > u.submit_t + 1000 {
+            bump("probe.user_request_waited_over_a_second", 1);
+            if has_idle_gap(&hist, u.submit_t, until, 1000, case.latency.0) {
+                fail!(
+                    "C19/user-request-left-waiting-on-idle-channel",
+                    "",
+                    format!(
+                        "the user request {} submitted to {} at {} ms was not started before {} ms although the channel was connected and had nothing to do for a second or more in between",
+                        u.tag, u.assoc, u.submit_t, until
+                    )
+                );
+            }
+        }
+    }
     // S1 on the wire, independent of the master's own task callbacks: between a request and the arrival of something that
     // answers it (or its response timeout, or a disturbance of the connection) no second request is written
     {
